@@ -419,13 +419,17 @@ func c01ClientVerify(c *core.Ctx) {
 		g, ok := u.X.(*ssa.Global)
 		return ok && g.String() == "io.EOF"
 	}
+	// the value of the reader's flag that means "verify": what the constructor of
+	// full reads stores (nothing = false); the flag may be spelt either way round
+	// (verify / skipVerify)
+	verifyOn := readerFlagOnValue(c)
 	ff := facts.FlowFuncs{
 		Edge: func(b *ssa.BasicBlock, idx int, t facts.Tokens) bool {
 			for _, cond := range facts.EdgeConds(b, idx) {
 				if x, isNil, ok := facts.NilCheck(cond); ok && underErr != nil && facts.Resolve(x) == underErr && isNil {
 					t["errNotEOF"] = true // err == nil
 				}
-				if _, fld, isF := facts.FieldOf(facts.Resolve(cond.V)); isF && fld == "verify" && !cond.Pos {
+				if _, fld, isF := facts.FieldOf(facts.Resolve(cond.V)); isF && fld == "verify" && cond.Pos != verifyOn {
 					t["noVerify"] = true
 				}
 				x, op, y, ok := facts.Cmp(cond)
@@ -498,7 +502,7 @@ func c01ClientVerify(c *core.Ctx) {
 			for _, in := range b.Instrs {
 				if st, ok := in.(*ssa.Store); ok {
 					if _, fld, isF := facts.FieldOf(st.Addr); isF && fld == "verify" {
-						if cst, isC := st.Val.(*ssa.Const); isC && cst.Value != nil && cst.Value.ExactString() == "true" {
+						if cst, isC := st.Val.(*ssa.Const); isC && cst.Value != nil && (cst.Value.ExactString() == "true") == verifyOn {
 							continue
 						}
 						c.Check(unv != nil && fn == unv, "C01.R3", "verify-cleared/"+facts.FuncName(fn), st.Pos(), "verification is switched off only by the unverified constructor", "blobReader.verify is cleared outside newBlobReaderUnverified")
@@ -507,6 +511,27 @@ func c01ClientVerify(c *core.Ctx) {
 			}
 		}
 	}
+}
+
+// readerFlagOnValue: the constant the verifying constructor stores into the
+// blob reader's bool flag (false when it stores nothing).
+func readerFlagOnValue(c *core.Ctx) bool {
+	nbr := c.P.Func("ociclient", "newBlobReader")
+	if nbr == nil {
+		return true
+	}
+	for _, b := range nbr.Blocks {
+		for _, in := range b.Instrs {
+			if st, ok := in.(*ssa.Store); ok {
+				if _, fld, isF := facts.FieldOf(st.Addr); isF && fld == "verify" {
+					if cst, isC := st.Val.(*ssa.Const); isC && cst.Value != nil {
+						return cst.Value.ExactString() == "true"
+					}
+				}
+			}
+		}
+	}
+	return false
 }
 
 func c01ServerDigestGate(c *core.Ctx) {
